@@ -312,8 +312,20 @@ class BitEval:
             # `x or c`: value x unless x == 0
             a = self.ev(e.values[0], depth + 1)
             return BV([T(a.deps())] * W)
+        if isinstance(e, ast.Compare) and len(e.ops) == 1 and isinstance(e.ops[0], (ast.NotEq, ast.Eq, ast.Gt)):
+            # x != 0 / x > 0 (non-negative words) is bool(x); x == 0 is not bool(x)
+            l, r = e.left, e.comparators[0]
+            try:
+                rc = self.repo.fold(r, ci=self.ci)
+            except NotConst:
+                rc = None
+            if rc == 0 and not isinstance(rc, bool):
+                a = self.ev(l, depth + 1)
+                return self._bool(a, negate=isinstance(e.ops[0], ast.Eq))
         if isinstance(e, ast.IfExp):
             t = self.ev(e.test, depth + 1)
+            if t.is_const():
+                return self.ev(e.body if t.const_value() else e.orelse, depth + 1)
             a, b = self.ev(e.body, depth + 1), self.ev(e.orelse, depth + 1)
             tb = self._bool(t)
             if a.is_const() and b.is_const() and b.const_value() == 0:
@@ -393,6 +405,14 @@ class BitEval:
                 return cl
             a, b = self.ev(e.args[0], depth + 1), self.ev(e.args[1], depth + 1)
             return BV([T(a.deps() | b.deps())] * W)
+        # self._helper() -> its single return expression (no arguments)
+        if isinstance(e.func, ast.Attribute) and isinstance(e.func.value, ast.Name) and e.func.value.id == "self" and self.ci is not None \
+                and not e.args and not e.keywords:
+            r = self.repo.lookup(self.ci, e.func.attr)
+            if r and r[1] == "method":
+                ret = _ret_expr(r[2])
+                if ret is not None:
+                    return self.ev(ret, depth + 1)
         # Enum(x) -> identity on bits
         owner = self.repo.class_of_expr(e.func, self.ci, self.ci.file if self.ci else None)
         if owner is not None and self.repo.is_enum(owner) and len(e.args) == 1:
